@@ -22,8 +22,9 @@ Case format (lines of integers; a statement's label is its position among the st
   [12, cl, child, def, out_ty, has_sc, nsc, sc...]              node statement cl of SUB-GRAPH wiring `child` (a separate
                                                                 Wiring of kind SubGraph, wired after the parent's statements;
                                                                 odd orders wire a child's statements in reverse)
-  [13, cl, child, slot, kind, ref]                              its inputs: kind 0 child-local node ref, 4 declared boundary
-                                                                argument #ref, 5 outer port of PARENT statement ref, captured
+  [13, cl, child, slot, kind, ref, elem]                        its inputs: kind 0 child-local node ref, 4 declared boundary
+                                                                argument #ref (elem >= 0: element elem of a TSL argument),
+                                                                5 outer port of PARENT statement ref, captured
         (lines 12/13 are not modelled in Coq - the decoder skips them; they are judged by the oracle only)
 Implementation output per order k:
   [20,k,code] 0 built, 1 cycle, 2 push-source dependency, 3 unbound placeholder, 4 self dependency,
@@ -46,8 +47,12 @@ PIPE = True
 BUDGET = {"quick": 300, "thorough": 4000}
 
 PROP_KINDS = {
+    # C03 at the wiring level: a passive-marked input must not be among the node's active inputs (it alone
+    # never runs the node), for the node of EVERY statement that carries the marker
+    "C03": {"passive_marker_not_in_key", "passive_marker_ignored"},
     "C01": {"order", "dep_order", "verdict", "push_prefix", "perm", "edges", "handover", "order_not_canonical"},
-    "C06": {"merge", "sink_merged", "streams", "evals", "perm", "verdict_varies", "count_varies", "passive_marker_not_in_key", "handover", "order_not_canonical"},
+    "C06": {"merge", "sink_merged", "streams", "evals", "perm", "verdict_varies", "count_varies", "passive_marker_not_in_key", "passive_marker_ignored", "handover", "order_not_canonical", "subgraph_merge"},
+    "C09": {"subgraph_merge"},
 }
 
 
@@ -151,7 +156,7 @@ def decode_children(case):
             ch.setdefault(l[2], {})[l[1]] = {"def": l[3], "out": 2 if l[4] == 2 else 1, "has_sc": l[5], "sc": tuple(l[7:7 + l[6]]), "ins": []}
     for l in case:
         if l[0] == 13 and l[2] in ch and l[1] in ch[l[2]]:
-            ch[l[2]][l[1]]["ins"].append((l[4], l[5]))
+            ch[l[2]][l[1]]["ins"].append((l[4], l[5], l[6] if len(l) > 6 else -1))
     return ch
 
 
@@ -174,6 +179,14 @@ def gen_children(rng, prog):
                     stmts.append((d, hs, sc, [(4, i)]))
                 if i < len(caps):
                     stmts.append((d, hs, sc, [(5, caps[i])]))
+            if rng.random() < 0.6:                                      # the same definition on different ELEMENTS of one
+                for e in range(rng.choice([2, 3])):                     # structured (TSL) argument, and on the whole argument slot
+                    stmts.append((d, hs, sc, [(4, nargs, e)]))
+                if rng.random() < 0.5:
+                    stmts.append((d, hs, sc, [(4, nargs, 0)]))          # exact copy of element 0: merges
+                if rng.random() < 0.5:
+                    stmts.append((d, hs, sc, [(4, nargs, 1), (4, nargs, 0)]))
+                    stmts.append((d, hs, sc, [(4, nargs, 0), (4, nargs, 1)]))
             if rng.random() < 0.5:
                 stmts.append((d, hs, sc, [(4, 0)]))                  # exact copy: merges
             if rng.random() < 0.5:
@@ -185,14 +198,14 @@ def gen_children(rng, prog):
         leaves = len(stmts)
         for (d, hs, sc, ins) in stmts:
             lines.append([12, cl, child, d, 1, hs, len(sc)] + list(sc))
-            for slot, (kind, ref) in enumerate(ins):
-                lines.append([13, cl, child, slot, kind, ref])
+            for slot, inp in enumerate(ins):
+                lines.append([13, cl, child, slot, inp[0], inp[1], inp[2] if len(inp) > 2 else -1])
             cl += 1
         if leaves >= 2 and rng.random() < 0.6:                        # a consumer of two child-local nodes
             a, b = rng.sample(range(leaves), 2)
             lines.append([12, cl, child, 3, 1, 0, 0])
-            lines.append([13, cl, child, 0, 0, a])
-            lines.append([13, cl, child, 1, 0, b])
+            lines.append([13, cl, child, 0, 0, a, -1])
+            lines.append([13, cl, child, 1, 0, b, -1])
     return lines
 
 
@@ -316,6 +329,8 @@ def gen_program(rng, tier, prop):
         feats.add("service")
     if rng.random() < 0.25:
         feats.add("errport")
+    if rng.random() < 0.25:
+        feats.add("passive_deep")
     if rng.random() < 0.04:
         feats.add(rng.choice(["unbound", "rebind", "selfdep", "pushdep", "unbound_free", "allpassive"]))
     dup_rate = 0.35 if prop == "C06" else 0.15
@@ -520,6 +535,38 @@ def gen_program(rng, tier, prop):
             add({"t": "dep", "a": b, "b": a})     # later node after earlier node: consistent with the canonical order
             if rng.random() < 0.3:
                 add({"t": "dep", "a": b, "b": a})   # duplicate: de-duplicated by the code
+    # passive markers do not loosen the ranking: a reader whose passive input's producer sits at the end of a
+    # longer chain (its active input is ready early), is wired later (placeholder), or closes a cycle
+    if "passive_deep" in feats:
+        srcs = [v for v in vals if prog[v]["kind"] == 0] or vals
+        for _ in range(rng.choice([1, 2])):
+            s0 = rng.choice(srcs)
+            chain = compute([_inp(("p", s0, ()))], out=1)
+            for _ in range(rng.choice([1, 2, 3])):
+                chain = compute([_inp(("p", chain, ()))], out=1)
+            probe = compute([_inp(("p", s0, ())), _inp(("p", chain, ()), passive=1)], out=1)
+            made += [chain, probe]
+            add(_node(2, 0, 0, ins=[_inp(("p", probe, ()))]))
+        how = rng.random()
+        if how < 0.35:          # the passive input's producer is wired LATER, through a placeholder (acyclic)
+            ph = add({"t": "place", "ty": 1})
+            ty[ph] = 1
+            s0 = rng.choice(srcs)
+            probe = compute([_inp(("p", s0, ())), _inp(("d", ph, ()), passive=1)], out=1)
+            late = compute([_inp(("p", compute([_inp(("p", s0, ()))], out=1), ()))], out=1)
+            add({"t": "bind", "ph": ph, "ref": late, "path": ()})
+            made += [probe, late]
+            add(_node(2, 0, 0, ins=[_inp(("p", probe, ()))]))
+        elif how < 0.6:         # a cycle closed through a passive input, no feedback node: must be rejected
+            ph = add({"t": "place", "ty": 1})
+            ty[ph] = 1
+            s0 = rng.choice(srcs)
+            first = compute([_inp(("p", s0, ())), _inp(("d", ph, ()), passive=1)], out=1)
+            last = first
+            for _ in range(rng.choice([0, 1, 2])):
+                last = compute([_inp(("p", last, ()))], out=1)
+            add({"t": "bind", "ph": ph, "ref": last, "path": ()})
+            made.append(last)
     # hidden error outputs (exception_time_series): (a) a consumer whose ONLY dependency on a deep producer is
     # the producer's error output and whose other input is ready early; (b) a duplicate of the producer wired
     # after the capture (a later order swaps it in front): it must share the captured node.
@@ -940,18 +987,19 @@ def oracle(prop, case, out):
         for child, (err, crep) in (o.get("children") or {}).items():
             sts = children.get(child, {})
             if err:
-                fails.append(("merge", "order %d: sub-graph wiring %d failed" % (k, child)))
+                fails.append(("subgraph_merge", "order %d: sub-graph wiring %d failed" % (k, child)))
                 continue
 
             def ccfg(c):
                 st = sts[c]
                 return (st["def"], st["out"], st["has_sc"], st["sc"] if st["has_sc"] else (),
                         tuple((kind, crep.get(ref, -7) if kind == 0 else
-                               (prep[ref] if kind == 5 and 0 <= ref < len(prep) else ref)) for kind, ref in st["ins"]))
+                               (prep[ref] if kind == 5 and 0 <= ref < len(prep) else ref), elem) for kind, ref, elem in st["ins"]))
             for c, r in crep.items():
                 if c in sts and r in sts and r != c and ccfg(c) != ccfg(r):
-                    fails.append(("merge", "order %d: sub-graph wiring %d: statements %d and %d differ (inputs %s vs %s; 4 = declared "
-                                           "argument, 5 = captured outer port) but share one node" % (k, child, c, r, sts[c]["ins"], sts[r]["ins"])))
+                    fails.append(("subgraph_merge", "order %d: sub-graph wiring %d: statements %d and %d differ (inputs %s vs %s as (kind, ref, "
+                                  "element); 4 = declared argument, 5 = captured outer port) but share one node: the compiled child has "
+                                  "fewer nodes than the inlined wiring" % (k, child, c, r, sts[c]["ins"], sts[r]["ins"])))
         code, reps = o["code"], o["reps"]
         verdicts.add(code)
         if code == 5:
@@ -992,6 +1040,13 @@ def oracle(prop, case, out):
         if sorted(nodes) != classes:
             fails.append(("perm", "order %d: compiled nodes %s are not the distinct wired nodes %s" % (k, nodes[:12], classes[:12])))
             continue
+        # a passive-marked input is not among the node's active inputs; every other rank input is
+        for c, act in (o.get("active") or {}).items():
+            if 0 <= c < len(prog) and is_node(prog[c]) and not prog[c]["uniq"]:
+                want = tuple(j for j, i in enumerate(prog[c]["ins"]) if i["rank"] and not i.get("passive"))
+                if tuple(act) != want:
+                    fails.append(("passive_marker_ignored", "order %d: node of statement %d has active inputs %s, its statement asks for %s "
+                                  "(passive markers %s)" % (k, c, list(act), list(want), [i.get("passive", 0) for i in prog[c]["ins"]])))
         want_order = canonical_order(prog, orders[k], rep)
         if want_order is not None and list(nodes) != want_order:
             d = next(i for i, (a, b) in enumerate(zip(nodes, want_order)) if a != b)
@@ -1087,6 +1142,7 @@ def stats(case, out):
          "with_forward_reference": int(any(is_node(st) and any(i["rank"] and src_refs(i["src"])[1] for i in st["ins"]) for st in prog)),
          "with_passive_marker": int(any(is_node(st) and any(i.get("passive") for i in st["ins"]) for st in prog)),
          "with_passive_marker_pair": int(bool(passive_pairs(prog))),
+         "with_passive_on_late_producer": int(any(is_node(st) and any(i.get("passive") and i["rank"] and i["src"][0] == "d" for i in st["ins"]) for st in prog)),
          "with_error_port_reader": int(any(is_node(st) and any(src_has_err(i["src"]) for i in st["ins"]) for st in prog)),
          "with_capture_between_duplicates": int(bool(capture_swaps(prog))),
          "with_service_endpoint": int(any(st["t"] == "anchor" for st in prog)),
